@@ -3,6 +3,7 @@
 From Coq Require Import List Arith.
 From Coq Require Import ZArith Permutation.
 From Utap Require Import Scope ScopeProofs DotModel DotProofs.
+From Utap Require DynScope.
 Import ListNotations.
 
 (* For every text (any nesting of scopes, any number of declarations and uses, names redeclared at any level and within a
@@ -65,6 +66,21 @@ Theorem C07_qualified_no_parameter_left : forall (p : proc) (m : list (sym * bex
   triangular m -> Permutation m (p_map p) -> dot p x = Some (i, t) -> In b (bounds_of t) -> In y (fv b) -> ~ In y (map fst m).
 Proof. exact dot_no_parameter_left. Qed.
 Print Assumptions C07_qualified_no_parameter_left.
+
+(* Binders over dynamic templates (DynScope.v: the builder's map from binder names to stacks of template frames): every p.member is looked up in the template of
+   the innermost enclosing binder named p, for every nesting and every reuse of binder names; the state is back to the enclosing environment behind each
+   quantifier.  (With one frame per name, as before repair d15ca7f, an enclosing binder of the same name is lost: the example.) *)
+Theorem C07_dynamic_binders_innermost : forall e, fst (DynScope.walk (fun _ => []) e) = DynScope.spec [] e.
+Proof. exact DynScope.walk_is_spec. Qed.
+Print Assumptions C07_dynamic_binders_innermost.
+Theorem C07_dynamic_binders_any_context : forall e env d, DynScope.same d (DynScope.repr env) ->
+  fst (DynScope.walk d e) = DynScope.spec env e /\ DynScope.same (snd (DynScope.walk d e)) (DynScope.repr env).
+Proof. exact DynScope.walk_correct. Qed.
+Print Assumptions C07_dynamic_binders_any_context.
+Example C07_dynamic_example :
+  let e := DynScope.DQuant 0 1 (DynScope.DNode [DynScope.DQuant 0 2 (DynScope.DMember 0); DynScope.DMember 0]) in
+  fst (DynScope.walk (fun _ => []) e) = [Some 2; Some 1] /\ fst (DynScope.walk1 (fun _ => None) e) = [Some 2; None].
+Proof. repeat split. Qed.
 
 Example C07_example :
   (* a; use a; { use a; a'; use a; { use a; use b } } use a; a''; use a   with a global b declared last *)
